@@ -585,6 +585,22 @@ fn decision_matrix(_tier: Tier, t: &mut Tally) {
                             let lq = act::user_ix(w, &s, &Action::Liquidate { liquidator: 1, liquidatee: 0, asset: 0, liab: 1, amt: 1000 }, la).unwrap();
                             v.push(("liquidate", Tx::one(with_replace(lq, replace), &[la])));
                         }
+                        if portfolio == "liquidatable" || (bi == 0 && matches!(c, Cond::ZeroPrice | Cond::ZeroPriceWithConf | Cond::NegativePrice | Cond::FixedZero) && portfolio == "healthy") {
+                            // a third party's receivership bracket: repay a little, seize a little
+                            let la = w.users[1].authority;
+                            let rem = w.risk_metas(&s, &acct, None, None);
+                            let mut ixs = vec![];
+                            if s.get(&ix::liq_record_key(&acct)).is_none() {
+                                ixs.push(ix::init_liq_record(acct, la));
+                            }
+                            ixs.push(ix::start_liquidation(acct, la, rem.clone()));
+                            // repay 0.1 debt tokens, seize a quarter collateral token (about a dollar)
+                            ixs.push(ix::repay(w.group, acct, la, w.banks[1].key, w.users[1].tokens[&w.banks[1].mint], w.banks[1].token_program, 100_000_000, None, vec![]));
+                            ixs.push(ix::withdraw(w.group, acct, la, w.banks[0].key, w.users[1].tokens[&w.banks[0].mint], w.banks[0].token_program, 10u64.pow(w.banks[0].decimals as u32) / 4, None, rem.clone()));
+                            ixs.push(ix::end_liquidation(acct, la, w.fee_wallet, rem));
+                            let ixs: Vec<_> = ixs.into_iter().map(|i| with_replace(i, replace)).collect();
+                            v.push(("receivership_seize", Tx::new(ixs, &[la])));
+                        }
                         if portfolio == "bankrupt" {
                             let ra = w.roles.risk;
                             let bk = act::user_ix(w, &s, &Action::Bankruptcy { signer: act::Signer::RiskAdmin, u: 0, b: 1 }, ra).unwrap();
@@ -603,7 +619,7 @@ fn decision_matrix(_tier: Tier, t: &mut Tally) {
                         }
                         let (req, store_for_ref): (Req, &Store) = match op {
                             "borrow" | "withdraw" => (Req::Initial, &rpost),
-                            "liquidate" => (Req::Maintenance, &rs),
+                            "liquidate" | "receivership_seize" => (Req::Maintenance, &rs),
                             _ => (Req::Equity, &rs),
                         };
                         let h = health::health(store_for_ref, &acct, req).unwrap();
@@ -618,6 +634,14 @@ fn decision_matrix(_tier: Tier, t: &mut Tally) {
                         }
                         if (op == "borrow" || op == "withdraw") && h.health() < -h.allow.clone() {
                             t.found.push(Found { clause: "C09.unusable_collateral_counts_zero".into(), sig: tag.clone(), detail: format!("{tag}: {op} accepted with reference initial health {:.9} (collateral with an unusable oracle counts as zero)", rf::qf64(&h.health())), replay: rep.clone() });
+                        }
+                        if op == "receivership_seize" {
+                            // collateral is never seized at a zero or negative price
+                            let bank = world::bank(&rs, &w.banks[0].key);
+                            match health::oracle_ref(&rs, &bank).and_then(|o| o.biased(Req::Maintenance, false)) {
+                                Ok(p) if p.is_positive() => {}
+                                other => t.found.push(Found { clause: "C09.no_zero_price_seizure".into(), sig: tag.clone(), detail: format!("{tag}: a receivership bracket seized collateral of {} although its usable price is {:?}", w.banks[0].label, other.map(|p| rf::qf64(&p))), replay: rep.clone() }),
+                            }
                         }
                         if op == "liquidate" {
                             // no zero / negative price sizes a liquidation
@@ -669,7 +693,7 @@ pub fn run(tier: Tier) -> Outcome {
     if valued == 0 || failed == 0 {
         o.machinery.push(format!("vacuity guard: valued {valued}, unusable {failed}"));
     }
-    for op in ["borrow", "withdraw", "liquidate", "bankruptcy"] {
+    for op in ["borrow", "withdraw", "liquidate", "bankruptcy", "receivership_seize"] {
         let acc: u64 = t.classes.iter().filter(|(k, _)| k.starts_with(op) && k.ends_with("accepted")).map(|(_, v)| *v).sum();
         let refu: u64 = t.classes.iter().filter(|(k, _)| k.starts_with(op) && k.ends_with("refused")).map(|(_, v)| *v).sum();
         if acc == 0 || refu == 0 {
@@ -684,7 +708,7 @@ pub fn run(tier: Tier) -> Outcome {
         "distinct_nontrivial": valued + failed,
         "value_sweep_cells": a_cells,
         "decision_cells": t.cells - a_cells,
-        "rule": "(A) complete product {asset side, debt side} x max-confidence {default, 2 %, 5 %, 100 %} x Pyth {prices 1 .. 9e15} x {exponents -12 .. 0 (quick) / -18 .. 1} x confidence {0, 1e-5, 1 %, around 5 %/2.12, around 10 %/2.12, 9 %, 100 %} x EMA {x1, x0.5, x2}, and Switchboard {values 1e-18 .. 1e6} x std-dev {0 .. 100 %, around 5 %/1.96 and 10 %/1.96}: pulse_health's initial / maintenance / equity asset and liability values and its three verdicts against the exact reference and the one-sided rules (collateral <= reported, debt >= reported, band <= 5 %); (B) {Pyth/Pyth, Switchboard/Switchboard, fixed/Pyth, Pyth/fixed, staked/Pyth} x {collateral, debt} oracle x 17 conditions x {healthy, liquidatable, bankrupt} portfolio: pulse plus the real borrow, withdraw, liquidate and bankruptcy instructions; an acceptance needs a usable reference valuation of the required kind",
+        "rule": "(A) complete product {asset side, debt side} x max-confidence {default, 2 %, 5 %, 100 %} x Pyth {prices 1 .. 9e15} x {exponents -12 .. 0 (quick) / -18 .. 1} x confidence {0, 1e-5, 1 %, around 5 %/2.12, around 10 %/2.12, 9 %, 100 %} x EMA {x1, x0.5, x2}, and Switchboard {values 1e-18 .. 1e6} x std-dev {0 .. 100 %, around 5 %/1.96 and 10 %/1.96}: pulse_health's initial / maintenance / equity asset and liability values and its three verdicts against the exact reference and the one-sided rules (collateral <= reported, debt >= reported, band <= 5 %); (B) {Pyth/Pyth, Switchboard/Switchboard, fixed/Pyth, Pyth/fixed, staked/Pyth} x {collateral, debt} oracle x 17 conditions x {healthy, liquidatable, bankrupt} portfolio: pulse plus the real borrow, withdraw, liquidate and bankruptcy instructions and a third party's receivership bracket that seizes collateral; an acceptance needs a usable reference valuation of the required kind",
         "exhaustive": true,
         "outcome_classes": t.classes,
         "samples": t.samples,
